@@ -250,7 +250,19 @@ def replay_screen(case, height=None):
 def c18_monitor(case, frames):
     if case["cfg"][5] != "1":   # not pop mode
         return None
-    if any_clipped(case):       # more rows than the height: outside the domain (DESIGN 7a)
+    if any_clipped(case):
+        # more rows than the height.  The rest of this monitor is for frames that fit (DESIGN 7a); one thing is decided here as
+        # well: a bar whose third terminal frame (shutdown = 2) is flushed in a cycle that has no room for its rows leaves the
+        # container without ever being drawn at the top — it is on the screen nowhere afterwards (finding D10)
+        for c in cycles(case):
+            if not c["clipped"] or c["out"] is None:
+                continue
+            ids = [int(i[1]) for i in c["out"][1] if i[0] == "r"]
+            for (b, sh, n, rm, np) in c["flushed"]:
+                if sh == 2 and not np and b not in ids:
+                    return ("popped bar %d left the container in the frame at event %d, which had no room for its rows (%d rows, "
+                            "height %s): it was never drawn at the top and is nowhere on the screen" % (b, c["outseq"], c["frame"][0], c.get("height")),
+                            "popped-bar-clipped-never-shown")
         return None
     scr, info, prob = replay_screen(case)
     if prob:
